@@ -15,9 +15,12 @@ def clean():
 clean()
 demo_dir = os.path.join(wt, meta["demo_dir"])
 demos = [f for f in os.listdir(src) if f.endswith("_test.go") or (f.endswith(".go") and f != "patch.diff")]
-for f in demos:
-    shutil.copy(os.path.join(src, f), os.path.join(demo_dir, f))
+if "demo_test.go" in demos:
+    demos = ["demo_test.go"]
 cmd = meta["demo_cmd"]
+if " cp " not in " " + cmd:   # some demo commands copy the file themselves
+    for f in demos:
+        shutil.copy(os.path.join(src, f), os.path.join(demo_dir, f))
 rc_clean, out_clean = sh(cmd, wt)
 print("demo on clean tree: rc=%d" % rc_clean)
 if rc_clean != 0:
